@@ -37,7 +37,7 @@ def tree(depth):
 
 @st.composite
 def cases(draw):
-    return {"root": draw(st.sampled_from(["sdmf", "mdmf"])), "tree": draw(tree(2)), "walk": draw(st.sampled_from(["fresh-ro", "rw-then-ro", "rw-then-ro", "ro-then-rw"])),
+    return {"hsalt": draw(st.integers(0, 15)), "root": draw(st.sampled_from(["sdmf", "mdmf"])), "tree": draw(tree(2)), "walk": draw(st.sampled_from(["fresh-ro", "rw-then-ro", "rw-then-ro", "ro-then-rw"])),
             "sched": draw(st.lists(st.integers(0, 5), max_size=20)),
             # a second gateway of the write-cap holder, configured with an access blacklist naming some of the children, edits the metadata of entries (which re-packs them)
             "gateway2": draw(st.none() | st.fixed_dictionaries({"blacklist": st.lists(st.integers(0, 30), max_size=6), "touch": st.lists(st.integers(0, 30), min_size=1, max_size=8)}))}
